@@ -182,3 +182,21 @@ def exc_mro(qual, program=None):
 
 def is_exception_class(qual, program=None):
     return "ext:builtins.BaseException" in exc_mro(qual, program)
+
+
+def yaml_merge_skips_tags():
+    """does the installed SafeConstructor.flatten_mapping splice the CONTENT of a merge value (`<<: value`) into the
+    mapping without ever constructing the value node itself -- so that the tag of that node is never dispatched to a
+    constructor (and never rejected)?  True / False from a static read of yaml/constructor.py, None if it is absent
+    (the frozen fact is True: PyYAML 5.x / 6.x)"""
+    sp = _site_packages()
+    tree = _parse(os.path.join(sp, "yaml/constructor.py")) if sp else None
+    if tree is None:
+        return None
+    for n in ast.walk(tree):
+        if isinstance(n, ast.FunctionDef) and n.name == "flatten_mapping":
+            src = ast.unparse(n)
+            dispatches = any(isinstance(c, ast.Call) and isinstance(c.func, ast.Attribute) and c.func.attr in ("construct_object", "construct_document", "construct_undefined") for c in ast.walk(n)) or ".tag not in" in src or "yaml_constructors" in src
+            splices = "value_node.value" in src or "subnode.value" in src
+            return splices and not dispatches
+    return None
